@@ -46,6 +46,49 @@ type threadModel struct {
 	cur     int // 1-based index of the running thread, 0 = none
 	cells   map[interface{}]*cellLog
 	order   []int
+	// sync.Pool hand-overs between threads: the Put happens before the Get
+	// that received the object (the only ordering a Pool gives)
+	poolEdges []poolEdge
+}
+
+type poolEdge struct{ pt, pidx, gt, gidx int }
+
+// poolItem is an object sitting in a sync.Pool.
+type poolItem struct {
+	v      value
+	thread int // thread that put it (0: outside the thread model)
+	idx    int // its Put event
+}
+
+// poolPut / poolGet model sync.Pool: Get hands out the object that has been
+// in the pool longest or - a fork - calls New (a real Pool may drop objects
+// at any time).
+func (p *Path) poolPut(pool *value, v value) {
+	it := poolItem{v: v}
+	if tm := p.tm; tm != nil && tm.cur != 0 {
+		th := tm.threads[tm.cur-1]
+		th.events++
+		it.thread, it.idx = tm.cur, th.events
+	}
+	p.pools[pool] = append(p.pools[pool], it)
+}
+
+func (p *Path) poolGet(pool *value) (value, bool) {
+	items := p.pools[pool]
+	if len(items) == 0 {
+		return nil, false
+	}
+	if p.choice(2) == 1 {
+		return nil, false
+	}
+	it := items[0]
+	p.pools[pool] = items[1:]
+	if tm := p.tm; tm != nil && tm.cur != 0 && it.thread != 0 && it.thread != tm.cur {
+		th := tm.threads[tm.cur-1]
+		th.events++
+		tm.poolEdges = append(tm.poolEdges, poolEdge{it.thread, it.idx, tm.cur, th.events})
+	}
+	return it.v, true
 }
 
 func (p *Path) logAccess(addr interface{}, write bool, fr *frame) {
@@ -283,6 +326,13 @@ func (p *Path) raceQuery(ta int, a *thrAccess, tb int, b *thrAccess) bool {
 					}
 				}
 			}
+		}
+	}
+	for _, pe := range tm.poolEdges {
+		if (pe.pt == ta && pe.gt == tb) || (pe.pt == tb && pe.gt == ta) {
+			deps = append(deps, dep{pe.pt, pe.pidx, pe.gt, pe.gidx})
+			extra[pe.pt][pe.pidx] = true
+			extra[pe.gt][pe.gidx] = true
 		}
 	}
 	for _, t := range []int{ta, tb} {
